@@ -97,6 +97,43 @@ package stree
 //@
 //@ spec sameNode(y *node[T]) bool := y.left == old(y.left) && y.right == old(y.right) && y.X == old(y.X) && y.keys == old(y.keys) && y.desc == old(y.desc) && y.cnt == old(y.cnt) && y.rep == old(y.rep)
 //@
+// treeToVine: right rotations turn the subtree into a right-leaning chain (every left link nil) of the same nodes. Each
+// rotation re-derives the ghost fields of the two nodes it moves; every other node keeps its sets (the rotated pair
+// spans the same nodes and keys as before). vs lists the chain from the top (vn nodes, linked by right).
+//@ func treeToVine
+//@   ghost cmp func(T, T) int
+//@   ghostret vs imap[*node[T]], vn int
+//@   requires [C01] treeOK(n, cmp)
+//@   ensures  [C01] nil: (n == nil) == (result == nil)
+//@   ensures  [C01] shape: treeOK(result, cmp) && cntOf(result) == old(cntOf(n))
+//@   ensures  [C01] keys: forall k int :: {inK(result, k)} inK(result, k) <==> old(inK(n, k))
+//@   ensures  [C01] desc: forall y ref :: {inD(result, y)} inD(result, y) <==> old(inD(n, y))
+//@   ensures  [C01] reps: forall k int :: {result.rep[k]} inK(result, k) ==> result.rep[k] == old(n.rep[k])
+//@   ensures  [C01] vine: forall y *node[T] :: {inD(result, y)} inD(result, y) ==> y.left == nil
+//@   ensures  [C01] values: forall y *node[T] :: {y.X} old(allocated(y)) ==> y.X == old(y.X)
+//@   ensures  [C01] frame: forall y *node[T] :: {y.left} {y.right} {y.X} {y.keys} {y.desc} {y.cnt} {y.rep} old(allocated(y)) && !old(inD(n, y)) ==> sameNode(y)
+//@   modifies every(n.left), every(n.right), every(n.keys), every(n.desc), every(n.cnt), every(n.rep)
+//@   at entry: ghost D0 = ite(n == nil, emptyset(n.desc), n.desc)
+//@   at entry: ghost K0 = ite(n == nil, emptyset(n.keys), n.keys)
+//@   loop 1: invariant [C01] stub: stub != nil && fresh(stub) && !(stub in D0) && stub.left == nil && (cur == stub || (cur in D0 && cur.left == nil))
+//@   loop 1: invariant [C01] tree: treeOK(stub.right, cmp) && cntOf(stub.right) == old(cntOf(n)) && ((n == nil) == (stub.right == nil))
+//@   loop 1: invariant [C01] sets: (forall y ref :: {inD(stub.right, y)} {y in D0} inD(stub.right, y) <==> y in D0) && (forall k int :: {inK(stub.right, k)} {k in K0} inK(stub.right, k) <==> k in K0) && (forall k int :: {stub.right.rep[k]} k in K0 ==> stub.right.rep[k] == old(n.rep[k]))
+//@   loop 1: invariant [C01] done: forall y *node[T] :: {y in D0} y in D0 && !inD(cur.right, y) ==> y.left == nil
+//@   loop 1: invariant [C01] below: cur != stub ==> (forall y ref :: {inD(cur.right, y)} inD(cur.right, y) ==> y in cur.desc && y != cur)
+//@   loop 1: invariant [C01] values: forall y *node[T] :: {y.X} old(allocated(y)) ==> y.X == old(y.X)
+//@   loop 1: invariant [C01] frame: forall y *node[T] :: {y.left} {y.right} {y.X} {y.keys} {y.desc} {y.cnt} {y.rep} old(allocated(y)) && !(y in D0) ==> sameNode(y)
+//@   at after "L := C.left": ghost ck = C.keys
+//@   at after "L := C.left": ghost cd = C.desc
+//@   at after "L := C.left": ghost cc = C.cnt
+//@   at after "L := C.left": ghost cr = C.rep
+//@   at after "cur.right = L": ghost C.keys = lambda k int :: k == rank(cmp, C.X) || inK(C.left, k) || inK(C.right, k)
+//@   at after "cur.right = L": ghost C.desc = lambda w int :: w == C || inD(C.left, w) || inD(C.right, w)
+//@   at after "cur.right = L": ghost C.cnt = 1 + cntOf(C.left) + cntOf(C.right)
+//@   at after "cur.right = L": ghost L.keys = ck
+//@   at after "cur.right = L": ghost L.desc = cd
+//@   at after "cur.right = L": ghost L.cnt = cc
+//@   at after "cur.right = L": ghost L.rep = cr
+//@
 // rewrite (treeToVine + vineToTree) rebuilds a subtree in place: same nodes, same keys, again a search tree. Its
 // contract is assumed here and checked by a bounded stand-in (the rotations need an in-order sequence argument).
 //@ func rewrite
